@@ -91,12 +91,29 @@ func (r *raceState) releaseJoin(t *Thread, vc *[]int) {
 	t.tick()
 }
 
-// access is called for every load/store of a memory cell.
+// access is called for every load/store of a memory cell. A cell that holds a
+// struct or an array is accessed as a whole: its fields / elements, which have
+// cells (addresses) of their own, are accessed with it.
 func (e *Engine) access(th *Thread, addr *Value, write bool) {
 	r := e.race
 	if r == nil {
 		return
 	}
+	switch v := (*addr).(type) {
+	case Struct:
+		for i := range v {
+			e.access(th, &v[i], write)
+		}
+	case Array:
+		for i := range v {
+			e.access(th, &v[i], write)
+		}
+	}
+	e.access1(th, addr, write)
+}
+
+func (e *Engine) access1(th *Thread, addr *Value, write bool) {
+	r := e.race
 	atom := r.atomic // an atomic operation conflicts with plain accesses only
 	if len(e.threads) == 1 {
 		return // nothing concurrent has ever existed; fork copies the clock
